@@ -11,7 +11,7 @@ CONSTANTS
   EnvShift = 0
   SkipLastBond = TRUE
   DropInnerTag = TRUE
-  AliasExcused = TRUE
+  StoreByRef = FALSE
   Emit = FALSE
 INVARIANT CapRespected
 CHECK_DEADLOCK FALSE
